@@ -77,8 +77,6 @@ class Report:
     def control(self, name, fired):
         """Positive control: the rule must fire on a deliberately broken instance."""
         self.controls.append({"control": name, "fired": bool(fired)})
-        if not fired:
-            raise Broken("positive control %s did not fire: the rule is blind" % name)
 
     def note(self, s):
         self.notes.append(s)
@@ -137,6 +135,11 @@ class Report:
             json.dump(ev, fh, indent=1)
         for v in new:
             print("  %s: %s%s" % (v["rule"], v["msg"], (" @ " + v["site"]) if v["site"] else ""))
+        blind = [c["control"] for c in self.controls if not c["fired"]]
+        if blind and not new:
+            # on a healthy tree every control must fire; on a tree that already violates the property a control that
+            # perturbs the same construct may cancel out, so the violation is reported instead
+            raise Broken("positive control did not fire, the rule is blind: %s" % "; ".join(blind))
         print("%s %s: obligations=%d discharged=%d known=%d new=%d (%.2fs)" % (
             self.pid, self.tier, self.obligations, self.discharged, len(listed), len(new), time.time() - self.t0))
         if new:
